@@ -48,3 +48,12 @@ func (u *eventDispatcher) addHandler(f func()) {
 	u.cond.Signal()
 	u.cond.L.Unlock()
 }
+
+// wake broadcasts on c while holding its lock. A waiter that has checked its
+// condition (a context, a status) but has not yet called Wait would miss a
+// Broadcast made without the lock and then sleep for ever.
+func wake(c *sync.Cond) {
+	c.L.Lock()
+	c.Broadcast()
+	c.L.Unlock()
+}
